@@ -540,12 +540,44 @@ fn ref_class(res_step: &Step, qname: &Name) -> Option<String> {
     }
 }
 
+/// The denial claim a response makes about (qname, qtype), read off its shape: NXDOMAIN / NODATA
+/// (empty answer, not a referral) / "the answer RRset owned by qname is the expansion of the
+/// wildcard `*.<Labels-suffix of qname>`" (an RRSIG at qname whose Labels field is smaller than
+/// the owner's label count). None for ordinary positive answers and referrals.
+fn observed_claim(m: &Message, qname: &Name) -> Option<Claim> {
+    let hq = vzone::hname(&qname.to_string());
+    if m.answers.is_empty() {
+        if m.metadata.response_code == ResponseCode::NXDomain {
+            return Some(Claim::NxDomain);
+        }
+        let has_soa = m.authorities.iter().any(|r| r.record_type() == RecordType::SOA);
+        let has_ns = m.authorities.iter().any(|r| r.record_type() == RecordType::NS);
+        if m.metadata.response_code == ResponseCode::NoError && (has_soa || !has_ns) {
+            return Some(Claim::NoData);
+        }
+        return None;
+    }
+    for r in &m.answers {
+        if r.name != hq {
+            continue;
+        }
+        if let hickory_proto::rr::RData::DNSSEC(hickory_proto::dnssec::rdata::DNSSECRData::RRSIG(s)) = &r.data {
+            let labels = s.input().num_labels as usize;
+            if labels < qname.num_labels() - qname.is_wildcard() as usize {
+                return Some(Claim::Wildcard { source: qname.suffix(labels).wildcard_child(), rtype: s.input().type_covered.into() });
+            }
+        }
+    }
+    None
+}
+
 fn completeness(world: &World, zi: usize, rt: &tokio::runtime::Runtime, l: &mut Local, only: Option<(&str, u16)>) {
     let z = &world.zones[zi];
     let zone = &z.rz;
     // all server responses of this zone first (the validator may ask for any of them)
     let mut table: HashMap<(HName, RecordType), Message> = HashMap::new();
     let mut todo: Vec<(String, u16, String)> = vec![];
+    let mut deviations: Vec<(String, u16)> = vec![];
     for qn in &world.qnames {
         let name = Name::parse(qn);
         if !name.at_or_below(&zone.origin) || dn::authoritative_zone(&world.refs, &name, rz::T_A).map(|a| a.origin != zone.origin).unwrap_or(true) {
@@ -562,6 +594,7 @@ fn completeness(world: &World, zi: usize, rt: &tokio::runtime::Runtime, l: &mut 
                 continue;
             };
             let s = rz::step(zone, &name, t);
+            let mut handled = false;
             if let Some(class) = ref_class(&s, &name) {
                 // only where the server's answer has the shape the reference expects (C10 judges the rest)
                 let rcode_ok = match &s {
@@ -581,9 +614,15 @@ fn completeness(world: &World, zi: usize, rt: &tokio::runtime::Runtime, l: &mut 
                 };
                 if rcode_ok {
                     todo.push((qn.clone(), t, class));
+                    handled = true;
                 } else {
                     l.outcome("completeness:skipped-c10-deviation");
                 }
+            }
+            // any other response that has the SHAPE of a denial / wildcard expansion (also where the
+            // reference expects a referral or plain data) is judged as a deviation below
+            if !handled && observed_claim(&m, &name).is_some() {
+                deviations.push((qn.clone(), t));
             }
             table.insert((vzone::hname(qn), RecordType::from(t)), m);
         }
@@ -599,6 +638,33 @@ fn completeness(world: &World, zi: usize, rt: &tokio::runtime::Runtime, l: &mut 
         t2.get(&(q.name.clone(), q.query_type)).cloned()
     });
     let handle = vzone::validator(up, world.anchors(), None);
+    // The answers that do NOT have the shape the reference expects (C10's deviations): what does
+    // the validator make of them? A response whose own claim (read off its shape) is FALSE in the
+    // zone must not come back Secure - server and validator must not agree on a wrong answer.
+    for (qn, t) in &deviations {
+        let (qn, t) = (qn.clone(), *t);
+        let name = Name::parse(&qn);
+        let m = &table[&(vzone::hname(&qn), RecordType::from(t))];
+        let Some(claim) = observed_claim(m, &name) else {
+            l.outcome("deviation:positive-or-referral-shape");
+            continue;
+        };
+        let tr = dn::truth(&world.refs, &name, t, &claim);
+        l.eval();
+        let e = vzone::validate_with(rt, &handle, Query::new(vzone::hname(&qn), RecordType::from(t)));
+        match (&tr, e.is_secure()) {
+            (Ok(()), true) => l.outcome(&format!("deviation:true-claim:{}:secure", claim.tag())),
+            (Ok(()), false) => l.outcome(&format!("deviation:true-claim:{}:{}", claim.tag(), e.class())),
+            (Err(why), false) => l.outcome(&format!("deviation:false-claim:{}:{why}:{}", claim.tag(), e.class())),
+            (Err(why), true) => {
+                l.violation(
+                    &format!("unsound-e2e:server-answer:{}:{why}", claim.tag()),
+                    &format!("the server's (wrong) DO=1 answer for {qn} {} claims {} although that is false in the zone ({why}), and the validator accepts it as Secure", rz::type_name(t), claim.tag()),
+                    || json!({"level": "completeness", "zones": world.specs.iter().map(|s| s.to_json()).collect::<Vec<_>>(), "world": world.text, "zone": zi, "qname": qn, "qtype": t, "qtype_name": rz::type_name(t), "claim": claim_json(&claim)}),
+                );
+            }
+        }
+    }
     for (qn, t, class) in todo {
         l.eval();
         let e = vzone::validate_with(rt, &handle, Query::new(vzone::hname(&qn), RecordType::from(t)));
